@@ -7,6 +7,7 @@ CONSTANTS
   Weak_NoReloadOnRestart = FALSE
   Weak_PendingSkipsExpiry = FALSE
   Weak_LateAddUnchecked = FALSE
+  Weak_ExpiryUsesStartupParams = FALSE
   Weak_BufferUsesCurrentValSet = FALSE
 INIT Init
 NEXT Next
